@@ -1598,6 +1598,13 @@ class RaiseModel:
                 out |= self.summary(sc)[0]
             return out
         name = info['name'] or ''
+        if name in ('builtins.sorted', 'builtins.min', 'builtins.max', 'builtins.sum') and (
+                any(isinstance(a_, ast.Name) and is_user_value(cfg, a_) for a_ in call.args)
+                or (len(call.args) == 1 and isinstance(call.args[0], (ast.Name, ast.Attribute)))):
+            # ordering / adding up the elements of a collection (or values the caller supplied) runs their comparison methods:
+            # unorderable elements raise.  (The numeric forms `max(0, n - 1)` stay total.)
+            self.table_hits[name] = self.table_hits.get(name, 0) + 1
+            return {'TypeError'}
         if name in model.TOTAL_CALLS:
             return set()
         if name == 'builtins.getattr' and len(call.args) == 3 and not call.keywords:
